@@ -3,7 +3,7 @@ ID = 'C06'
 LEVEL = 'other'
 CONTRACT_MODULES = ['contracts.evals']
 CONE = ['csep.core.poisson_evaluations._simulate_catalog']
-ORACLE_MODULES = ['rt.oracles_eval']
+ORACLE_MODULES = ['rt.oracles_eval', 'rt.oracles_contracts']
 BOUNDED = os.path.exists(os.path.join(os.path.dirname(__file__), '..', 'rt', 'bounded_C06.py'))
 FLOAT_MODEL = 'R for the placement clause (comparisons of the given floats are exact); the clause "last cumulative weight reaches 1" is about rounding and is bounded only'
 TRUSTED = ['numpy.searchsorted(side=right) partition point; numpy.add.at; ndarray.fill; lemma L1 (sum after add.at), L4 (count congruence)', 'pyvc engine, z3 5.1']
